@@ -4,3 +4,4 @@ import Proofs.C05Core
 import Proofs.C05Mirror
 import Proofs.C05Code
 import Proofs.C04Code
+import Proofs.C05Literal
